@@ -350,6 +350,57 @@ def durability_assumption(chk):
         chk.violation("correspondence", "no sqlite connection of the version index could be inspected", {"theorem_or_tie": "durability assumption of the crash model"}, found_input=False)
 
 
+def slow_consumer(chk):
+    """"at every instant": whoever reads Conductor's own stdout stalls (a pager, a paused terminal, a slow log collector)
+    while a sequential experiment has written more than fits through; the task itself can still exit 0.  As long as the
+    forwarding has not finished, stdout.log is incomplete -- and no version row may be visible for it."""
+    import subprocess
+    import time
+    import implrun
+    from common import PY, SRC
+
+    root = implrun.make_project({"COND": ""})
+    n = 100000
+    open(os.path.join(root, "gen.py"), "w").write("import os, sys\nos.write(1, b'x' * %d)\n" % n)
+    open(os.path.join(root, "COND"), "w").write('run_experiment(name="e", run="exec %s gen.py")\n' % PY)
+    p = subprocess.Popen([PY, "-m", "conductor", "run", "//:e"], cwd=root, env=dict(os.environ, PYTHONPATH=SRC), stdout=subprocess.PIPE, stderr=subprocess.PIPE)
+    problems = []
+    t0 = time.time()
+    seen_row_early = None
+    while time.time() - t0 < 6.0:      # nobody reads p.stdout during this time
+        rows = implrun.index_rows(root)
+        if rows:
+            vd = os.path.join(root, "cond-out", "e.task.%d" % rows[0][1], "stdout.log")
+            size = os.path.getsize(vd) if os.path.exists(vd) else -1
+            if size != n:
+                seen_row_early = (round(time.time() - t0, 1), size)
+                break
+        time.sleep(0.1)
+    try:
+        out, err = p.communicate(timeout=30)      # now the consumer reads
+    except subprocess.TimeoutExpired:
+        p.kill()
+        out, err = p.communicate()
+        problems.append("harness: cond did not finish after its output was drained")
+    chk.coverage["evaluations"] += 1
+    chk.count("slow-consumer", "runs")
+    if seen_row_early is not None:
+        problems.append("a version row was visible %.1f s into the stall while stdout.log held %d of the %d bytes the task wrote" % (seen_row_early[0], seen_row_early[1], n))
+    rows = implrun.index_rows(root)
+    if p.returncode == 0 and rows:
+        vd = os.path.join(root, "cond-out", "e.task.%d" % rows[0][1], "stdout.log")
+        size = os.path.getsize(vd) if os.path.exists(vd) else -1
+        if size != n:
+            problems.append("after the run the recorded version's stdout.log holds %d of %d bytes" % (size, n))
+    elif p.returncode != 0:
+        problems.append("harness: cond exited %s: %r" % (p.returncode, (out + err)[-200:]))
+    for msg in problems:
+        chk.violation("impl-violation", "sequential experiment with a stalled reader of Conductor's stdout: %s" % msg,
+                      {"input": {"part": "slow-consumer", "bytes": n, "stall_s": 6}, "impl_observation": {"exit": p.returncode, "rows": [list(r) for r in rows]}}, match_key={"slow-consumer": msg.split(" ")[0]}, size=1)
+    if not problems:
+        chk.coverage["traces_validated_against_impl"] += 1
+
+
 def run(tier, seed, replay=None):
     chk = Check("C06", tier, seed)
     chk.build_proofs(["Model/Store.vo", "Lib/Cmp.vo", "Refuted/StoreOld.vo"])
@@ -380,6 +431,7 @@ def run(tier, seed, replay=None):
 
     head_states(chk)
     durability_assumption(chk)
+    slow_consumer(chk)
     scs = scenarios(tier, chk.rng)
     total_runs = 0
     states_seen = 0
